@@ -18,7 +18,7 @@ var VerifHarnesses = map[string]func(){
 	"VerifJustDecided":     VerifJustDecided,
 	"VerifJustPrePrepare":  VerifJustPrePrepare,
 	"VerifClassify":        VerifClassify,
-	
+	"VerifRun":             VerifRun,
 }
 
 type hmsg struct {
@@ -204,9 +204,10 @@ func cntRC(ms []*hmsg, l, n int, round int64, nullOnly bool, maxPr int64) int {
 }
 
 // specJ is rule J (soundness form, guarded): what a justification accepted for a PRE-PREPARE(round, val) must contain.
-//   J1: ROUND-CHANGE(round) with null prepared round/value from >= Q distinct sources; or
-//   J2: for some (pr,pv): PREPARE(pr,pv) from >= Q distinct sources, ROUND-CHANGE(round) with prepared round <= pr from
-//       >= Q distinct sources, one ROUND-CHANGE(round) carrying exactly (pr,pv), and pv != 0 => val == pv.
+//
+//	J1: ROUND-CHANGE(round) with null prepared round/value from >= Q distinct sources; or
+//	J2: for some (pr,pv): PREPARE(pr,pv) from >= Q distinct sources, ROUND-CHANGE(round) with prepared round <= pr from
+//	    >= Q distinct sources, one ROUND-CHANGE(round) carrying exactly (pr,pv), and pv != 0 => val == pv.
 func specJ(js []*hmsg, jl, n, q int, round, val int64) bool {
 	if cntRC(js, jl, n, round, true, 0) >= q {
 		return true
@@ -413,6 +414,156 @@ func VerifClassify() {
 	case UponUnjustQuorumRoundChanges, UponNothing:
 	default:
 		vrt.Assert("classify returns a known rule", false)
+	}
+	vrt.Reach("end")
+}
+
+// ---------------------------------------------------------------------------------------------------------------
+// Run-level harness (A): the real Run loop of one honest process fed a concrete sequence of event KINDS (input
+// arrival, message of a given type, timer expiry) whose contents are symbolic; obligations are asserted on the log of
+// broadcasts and decisions.
+
+type vBcast struct {
+	typ    MsgType
+	round  int64
+	val    int64
+	pr, pv int64
+	nj     int
+}
+
+// digit returns the i-th base-b digit of x.
+func vDigit(x, b, i int) int {
+	for ; i > 0; i-- {
+		x /= b
+	}
+	return x % b
+}
+
+// VerifRun: events = base-7 digits of "ev" (0 input value arrives, 1..5 message of that type, 6 current round timer
+// fires); justification lengths = base-8 digits of "jl". Messages never come from the process itself.
+func VerifRun() {
+	n := vrt.Param("n")
+	k := vrt.Param("k")
+	process := int64(vrt.Param("p"))
+	ev, jl := vrt.Param("ev"), vrt.Param("jl")
+	q := specQuorum(n)
+	vrt.Unwind(k + 3)
+
+	var log []vBcast
+	decides := 0
+	var decVal, decRound int64
+	var decQ []hM
+	var timers []chan time.Time
+	d := vDef(n)
+	d.NewTimer = func(int64) (<-chan time.Time, func()) {
+		c := make(chan time.Time, 1)
+		timers = append(timers, c)
+		return c, func() {}
+	}
+	d.Decide = func(_ context.Context, _ int64, v int64, r int64, qc []hM) {
+		decides++
+		decVal, decRound, decQ = v, r, qc
+	}
+	recv := make(chan hM, 1)
+	tr := Transport[int64, int64, int64]{
+		Broadcast: func(_ context.Context, typ MsgType, _ int64, source int64, round int64, value int64, pr int64, pv int64, just []hM) error {
+			vrt.Assert("own broadcasts carry the own process id", source == process)
+			log = append(log, vBcast{typ, round, value, pr, pv, len(just)})
+			return nil
+		},
+		Receive: recv,
+	}
+	inputCh := make(chan int64, 1)
+	input := int64(vrt.Byte("input"))
+	vrt.Assume(input != 0)
+	ctx, cancel := context.WithCancel(context.Background())
+
+	// all delivered messages (top level and nested), for the spec side
+	flat := &vFlat{}
+	step := 0
+	vrt.OnIdle(func() {
+		if step >= k {
+			cancel()
+			return
+		}
+		i := step
+		step++
+		kind := vDigit(ev, 7, i)
+		switch kind {
+		case 0:
+			inputCh <- input
+		case 6:
+			if len(timers) > 0 {
+				timers[len(timers)-1] <- time.Time{}
+			} else {
+				cancel()
+			}
+		default:
+			m := vMsg(vrt.N("m", i), n)
+			vrt.Assume(m.typ == MsgType(kind) && m.src != process)
+			nj := vDigit(jl, 8, i)
+			js := make([]*hmsg, nj)
+			for x := 0; x < nj; x++ {
+				js[x] = vMsg(vrt.N("m", i, x), n)
+				flat.add(js[x], true)
+			}
+			m.just = asMsgs(js, nj)
+			flat.add(m, true)
+			recv <- m
+		}
+	})
+
+	var err error
+	vrt.RunActor(func() { err = Run[int64, int64, int64](ctx, d, tr, 0, process, inputCh, make(chan int64, 1)) })
+	_ = err
+
+	// ---- obligations on the log ----
+	vrt.Assert("L3: at most one decision", decides <= 1)
+	for a := 0; a < len(log); a++ {
+		x := log[a]
+		if x.typ == MsgPrepare || x.typ == MsgCommit || x.typ == MsgPrePrepare {
+			vrt.Assert("broadcast values are never the zero value", x.val != 0)
+		}
+		if x.typ == MsgRoundChange {
+			vrt.Assert("L10: ROUND-CHANGE is for a round >= 2", x.round >= 2)
+			vrt.Assert("L11: prepared round of a ROUND-CHANGE is below its round", x.pr < x.round)
+		}
+		if x.typ == MsgCommit {
+			vrt.Assert("L2: COMMIT(r,v) only with PREPARE(r,v) from a quorum of distinct sources delivered", flat.cnt(n, MsgPrepare, x.round, x.val) >= q)
+		}
+		if x.typ == MsgPrePrepare {
+			vrt.Assert("L7: own PRE-PREPARE only as leader of the round", (0+x.round)%int64(n) == process)
+		}
+		for b := a + 1; b < len(log); b++ {
+			y := log[b]
+			if x.typ != MsgDecided && y.typ != MsgDecided {
+				vrt.Assert("L5: rounds of broadcasts never decrease", y.round >= x.round)
+			}
+			if x.typ == y.typ && (x.typ == MsgPrepare || x.typ == MsgCommit || x.typ == MsgPrePrepare || x.typ == MsgRoundChange) {
+				vrt.Assert("L1/L2/L7/L11: at most one PRE-PREPARE, PREPARE, COMMIT and ROUND-CHANGE per round", x.round != y.round)
+			}
+			if x.typ == MsgCommit && y.typ == MsgRoundChange {
+				vrt.Assert("L4: a later ROUND-CHANGE carries the prepared pair of an earlier COMMIT", y.pr >= x.round && (y.pr != x.round || y.pv == x.val))
+			}
+		}
+	}
+	if decides >= 1 {
+		// decision backed by a quorum of distinct COMMIT(round, value) among everything delivered
+		vrt.Assert("L3: a decision is backed by COMMIT(round,value) from a quorum of distinct sources", flat.cnt(n, MsgCommit, decRound, decVal) >= q)
+		c := 0
+		for s := 0; s < n; s++ {
+			found := false
+			for _, m := range decQ {
+				if m.Source() == int64(s) && m.Type() == MsgCommit && m.Round() == decRound && m.Value() == decVal {
+					found = true
+				}
+			}
+			if found {
+				c++
+			}
+		}
+		vrt.Assert("L3: the quorum certificate handed to Decide contains that quorum", c >= q)
+		vrt.Reach("decided")
 	}
 	vrt.Reach("end")
 }
